@@ -499,6 +499,9 @@ impl World {
             };
             let owner = &self.incs[oi];
             if c03 {
+                if !owner.ledger.is_empty() {
+                    self.nontrivial.insert("C03".into());
+                }
                 if ns.max_version() > owner.max_version {
                     return Err(mk(
                         "C03",
